@@ -937,3 +937,85 @@ func c15R14(c *Ctx) {
 		c.Violation("", "-", "no-order-tracker", "no loop tracking header/trailer sections with boolean state found")
 	}
 }
+
+// C11-R12 (= C15-R15): what the parser hands on is exactly the fields it extracted. The field array
+// is sized by counting SOH bytes before parsing, and an XMLData payload may contain SOH: the
+// surplus entries (empty, or left over from the previous parse into the same Message) must not be
+// seen by the consumers that range over Message.fields (the order/value check of validation, the
+// copy). Every successful return of the parse function is dominated by a store that cuts
+// Message.fields to the entries used: fields[:fieldIndex+1].
+func c11R12(c *Ctx) {
+	p := c.P
+	parse, _ := p.parseFn()
+	name := FuncName(parse)
+	fFields := p.Field(modPath, "Message", "fields")
+	fIdx := p.Field(modPath, "msgParser", "fieldIndex")
+	var cuts []ssa.Instruction
+	for _, st := range p.FieldStores(fFields) {
+		if st.Fn != parse {
+			continue
+		}
+		vo := p.Origin(st.Store.Val)
+		if vo.Kind != "slice" || !isFieldOrg(vo.Base, fFields) || vo.Y == nil {
+			continue
+		}
+		if vo.X != nil && !vo.X.IsConstInt(0) {
+			continue
+		}
+		y := vo.Y
+		if y.Kind == "binop" && y.Op == token.ADD && y.Y.IsConstInt(1) && isFieldOrg(y.X, fIdx) {
+			cuts = append(cuts, st.Store)
+		}
+	}
+	// the returns behind the field loop: those dominated by the final read of BodyLength(9)
+	t9 := p.Tag("tagBodyLength")
+	var lengthRead ssa.Instruction
+	for _, cl := range Calls(parse) {
+		if v, isV := cl.(ssa.Value); isV {
+			if o := p.Origin(v); o.IsCallTo("(FieldMap).getIntNoLock", "(FieldMap).GetInt") && o.ArgConstInt(0, t9) {
+				lengthRead = cl.(ssa.Instruction)
+			}
+		}
+	}
+	if lengthRead == nil {
+		c.Violation(name, p.Pos(parse.Pos()), "no-bodylength-read", "the parse function does not read BodyLength(9) after its field loop")
+		return
+	}
+	n := 0
+	for _, b := range parse.Blocks {
+		ret, ok := b.Instrs[len(b.Instrs)-1].(*ssa.Return)
+		if !ok || b == parse.Recover || !InstrDominates(lengthRead, ret) {
+			continue
+		}
+		n++
+		// on every path the array was cut, or the index is already at/after its end (no surplus entry)
+		isCut := map[ssa.Instruction]bool{}
+		for _, s := range cuts {
+			isCut[s] = true
+		}
+		mf := &MustFlow{Fn: parse, Transfer: func(in ssa.Instruction, st Set) {
+			if isCut[in] {
+				st["cut"] = true
+			}
+		}, Edge: func(from, to *ssa.BasicBlock, st Set) {
+			if edgeCond(p, from, to).Implies(func(a *Atom) bool {
+				if !a.L.IsCallTo("len") || len(a.L.Args) != 1 || !isFieldOrg(a.L.Args[0], fFields) {
+					return false
+				}
+				if a.Rel == "<=" && isFieldOrg(a.R, fIdx) {
+					return true
+				}
+				// len < index+1
+				return a.Rel == "<" && a.R.Kind == "binop" && a.R.Op == token.ADD && a.R.Y.IsConstInt(1) && isFieldOrg(a.R.X, fIdx)
+			}) {
+				st["cut"] = true
+			}
+		}}
+		okCut := mf.AtReturns()[ret]["cut"]
+		c.Check(okCut, name, p.InstrPos(ret), "fields-cut-to-extracted", "Message.fields is cut to the extracted entries before a successful return",
+			"the parser can return successfully with Message.fields still sized by the SOH count: when an XMLData payload contains SOH the array has surplus entries (empty, or stale from the previous parse into the same Message), and validation's order/value check, which ranges over the array, rejects a conforming message with \"Tag specified without a value\"")
+	}
+	if n == 0 {
+		c.Violation(name, p.Pos(parse.Pos()), "no-success-return", "the parse function has no successful return")
+	}
+}
